@@ -8,6 +8,7 @@ mod conv;
 mod h2cref;
 mod infra;
 mod refmodel;
+mod sched;
 mod alpha;
 mod mc;
 mod points;
@@ -23,6 +24,12 @@ fn main() {
     if args.len() < 2 {
         eprintln!("usage: ppverif <ID> [--tier quick|thorough] [--replay <file>]");
         std::process::exit(2);
+    }
+    if args[1] == "__c20_op" {
+        // child mode for C20: run one operation instance first in a fresh process and print its bits
+        let i: usize = args.get(2).and_then(|s| s.parse().ok()).unwrap_or(0);
+        println!("{}", checks::c20::hex_of(&checks::c20::run_op(i)));
+        return;
     }
     let id = args[1].clone();
     let mut tier = match std::env::var("VERIF_TIER").ok().as_deref() {
